@@ -69,7 +69,8 @@ pub fn raw_push_pop(bits: &[bool], rng: &mut Rng) -> RawVector {
 
 pub fn bv_set_bit(bits: &[bool]) -> BitVector { BitVector::from(raw_set_bit(bits)) }
 pub fn bv_push(bits: &[bool], rng: &mut Rng) -> BitVector { BitVector::from(raw_push(bits, rng)) }
-pub fn bv_iter(bits: &[bool]) -> BitVector { bits.iter().copied().collect() }
+// Every length uses another kind of size hint (exact for lengths that are multiples of 6).
+pub fn bv_iter(bits: &[bool]) -> BitVector { crate::gen::hinted(bits, bits.len()).collect() }
 pub fn bv_push_pop(bits: &[bool], rng: &mut Rng) -> BitVector { BitVector::from(raw_push_pop(bits, rng)) }
 
 pub fn enable_all(bv: &mut BitVector) {
@@ -98,7 +99,7 @@ pub fn sparse_try_set(n: usize, pos: &[usize]) -> Result<SparseVector, String> {
 pub fn sparse_extend(n: usize, pos: &[usize]) -> Result<SparseVector, String> {
     guard(|| {
         let mut b = SparseBuilder::new(n, pos.len()).map_err(|e| e.to_string())?;
-        b.extend(pos.iter().copied());
+        b.extend(crate::gen::hinted(pos, pos.len() + n % 5));
         SparseVector::try_from(b).map_err(|e| e.to_string())
     }).and_then(|r| r)
 }
